@@ -11,7 +11,12 @@ def apply_step(w, program, st, **kw):
     op = st[0]
     if op == 'build':
         label = st[1]
-        body = program['roots'][label] if isinstance(label, int) else st[3]
+        body = st[3] if len(st) > 3 else program['roots'][label]
+        opts = st[4] if len(st) > 4 else None
+        if opts:
+            kw = dict(kw)
+            kw.update(build_kwargs(opts))
+            kw['step_opts'] = opts
         return w.build(program, body, st[2] or {}, label=label, **kw)
     if op == 'clean':
         return w.clean()
@@ -32,6 +37,26 @@ def apply_step(w, program, st, **kw):
     else:
         raise ValueError(st)
     return None
+
+
+def build_kwargs(opts):
+    """World.build keyword arguments for a recorded crash point / injected fault"""
+    import errno
+    from .prog import crash_hook
+    from .monitor import Fault
+    kw = {}
+    if 'crash_at' in opts:
+        kw['hooks'] = {'point': crash_hook(opts['crash_at'])}
+        kw['run_model'] = False
+    if 'fault' in opts:
+        f = opts['fault']
+        code = getattr(errno, f.get('errno', 'EIO'))
+        cls = {'OSError': OSError, 'PermissionError': PermissionError}[f.get('cls', 'OSError')]
+        kw['fault'] = Fault(f['k'], set(f['kinds']), set(f['phases']),
+                            lambda path, cls=cls, code=code: cls(code, 'injected fault', path))
+        if f.get('expect_fail', True):
+            kw['run_model'] = False
+    return kw
 
 
 def replay(case, verbose=True):
